@@ -225,3 +225,67 @@ def numeric_twins(v: int, float_first: bool) -> bool:
     shift = apply_binary_operation(ast.LShift(), ti2, tf2)        # 1 << 1.0 is a TypeError in CPython
     repeat = apply_binary_operation(ast.Mult(), get_pedal_type_from_value("ab"), tf2)   # "ab" * 1.0 as well
     return ok and isinstance(shift, ImpossibleType) and isinstance(repeat, ImpossibleType)
+
+
+TREE_VALUES = [2, -1, 1.5, "a", [1], (1, 2)]
+
+
+def tifa_tree(a0: bool, a1: bool, a2: bool, b0: bool, b1: bool, b2: bool, c0: bool, c1: bool, c2: bool,
+              o0: bool, o1: bool, o2: bool, o3: bool, left_nested: bool) -> bool:
+    """
+    Depth-2 expression trees through the real analysis: `z = (x op1 y) op2 w` or `z = x op2 (y op1 w)` with op1 = partition,
+    op2 from the 12 binary operators, operands from a 6-value menu (all concrete on the path; the body runs untraced).
+    CPython TypeError anywhere in the tree => an incompatible_types issue; otherwise the type of z admits the real value.
+
+    pre: True
+    post: _
+    """
+    if tick():
+        return True
+    ia, ib, ic, k2 = bits(a0, a1, a2), bits(b0, b1, b2), bits(c0, c1, c2), bits(o0, o1, o2, o3)
+    if ia >= 6 or ib >= 6 or ic >= 6 or k2 >= 12:
+        return True
+    k1 = int(PART) if PART else 0
+    with NoTracing():
+        return _tree_cell(BINOPS[k1], BINOPS[k2], TREE_VALUES[ia], TREE_VALUES[ib], TREE_VALUES[ic], left_nested)
+
+
+def _tree_cell(op1, op2, a, b, c, left_nested):
+    (s1, _, f1), (s2, _, f2) = op1, op2
+
+    def _vd(sym, l, r):      # the value-dependent Pow cells of the recorded known finding
+        if sym != "**" or not isinstance(l, (int, float)) or not isinstance(r, (int, float)):
+            return False
+        return (isinstance(l, int) and isinstance(r, int) and r < 0) or (l < 0 and isinstance(r, float) and r != int(r))
+
+    try:
+        inner = f1(a, b) if left_nested else f1(b, c)
+        pow_value_dependent = _vd(s1, *((a, b) if left_nested else (b, c))) or (
+            _vd(s2, inner, c) if left_nested else _vd(s2, a, inner))
+    except Exception:
+        pow_value_dependent = False
+    if excluded("C19.tifa_tree", s1=s1, s2=s2, a=a, b=b, c=c, left_nested=left_nested,
+                pow_value_dependent=pow_value_dependent):
+        return True
+    raised_type_error, has_result, result = False, False, None
+    try:
+        result = f2(f1(a, b), c) if left_nested else f2(a, f1(b, c))
+        has_result = True
+    except TypeError:
+        raised_type_error = True
+    except (ZeroDivisionError, ValueError, OverflowError, MemoryError):
+        pass
+    if has_result and isinstance(result, complex):
+        return True
+    expr = "(x %s y) %s w" % (s1, s2) if left_nested else "x %s (y %s w)" % (s2, s1)
+    code = "x = %r\ny = %r\nw = %r\nz = %s\n" % (a, b, c, expr)
+    r = Report()
+    contextualize_report(code, report=r)
+    res = tifa_analysis(report=r)
+    issues = res.issues.get("incompatible_types", [])
+    if raised_type_error:
+        return len(issues) >= 1
+    if issues or not has_result:
+        return True
+    z = res.top_level_variables["z"].type
+    return isinstance(z, Type) and bool(is_subtype(get_pedal_type_from_value(result), z))
